@@ -52,11 +52,11 @@ func machineTable(sc *work.Scratch, devs []string) (string, *tlc.Result, error) 
 			} else {
 				cfg += "INVARIANTS ErrMeansUntouched EmitOutcome\nPROPERTIES AllOrNothing Terminates\n"
 			}
-			j.res, j.err = tlc.Run(tlc.Opts{Module: "MC_Unmarshal", Cfg: cfg, Dir: filepath.Join(sc.Dir, fmt.Sprintf("tlc-um-%d", i)), Workers: 1, Timeout: 5 * time.Minute, HeapGB: 1})
+			j.res, j.err = tlc.Run(tlc.Opts{Module: "MC_Unmarshal", Cfg: cfg, Dir: filepath.Join(sc.Dir, fmt.Sprintf("tlc-um-%d", i)), Workers: 1, Timeout: 5 * time.Minute, HeapGB: 1, Coverage: true})
 		}(i, j)
 	}
 	wg.Wait()
-	agg := &tlc.Result{}
+	agg := &tlc.Result{Actions: map[string][2]int64{}}
 	var lines []string
 	for _, j := range jobs {
 		if j.err != nil {
@@ -69,6 +69,7 @@ func machineTable(sc *work.Scratch, devs []string) (string, *tlc.Result, error) 
 		agg.Distinct += j.res.Distinct
 		agg.WallS += j.res.WallS
 		agg.Cmd = j.res.Cmd
+		tlc.MergeActions(agg.Actions, j.res)
 		for _, p := range j.res.Prints {
 			if strings.HasPrefix(p, "OUTCOME ") {
 				lines = append(lines, p[8:])
@@ -181,6 +182,10 @@ func RunTotal(f *Family, tier string) int {
 		return infra(f.Prop, err)
 	}
 	table, mres, err := machineTable(sc, devs)
+	if err != nil {
+		return infra(f.Prop, err)
+	}
+	specActions, err := vacuity(f.Prop, mres.Actions)
 	if err != nil {
 		return infra(f.Prop, err)
 	}
@@ -454,6 +459,7 @@ func RunTotal(f *Family, tier string) int {
 			"samples":                        samples,
 			"programs":                       len(execs) - unobs,
 			"machine_states":                 mres.Distinct,
+			"spec_actions":                   specActions,
 			"methods_observed":               len(events),
 			"calls":                          ncalls,
 			"calls_returning_error":          tally.Rej,
